@@ -195,6 +195,11 @@ func (round *round3) Start() *tss.Error {
 	// PRINT public key & private share
 	common.Logger.Debugf("%s public key: %x", round.PartyID(), eddsaPubKey)
 
+	// nothing more is expected from anybody: let the party finish instead of reporting every peer as awaited
+	for j := range round.ok {
+		round.ok[j] = true
+	}
+
 	round.end <- round.save
 	return nil
 }
